@@ -5,6 +5,9 @@ import Stef.Driver.Core
   Sub-driver of the receiver LTS (tokens `rv`, `ls`).
     rv new                      reset to the initial state                      -> ok
     rv <event> [arg]            one event of Stef.Receiver.step                 -> ok <what happened> | not-enabled
+                                (checkErr decode n readFail consume o schedAck schedBad | tick badRecv badMore
+                                 badDone tickNoBad tickAck sendOk sendFail stop; the tick branch of Run is
+                                 tick = load, [badRecv .. send], tickNoBad = inner default, tickAck = compare + send)
     rv summary                                                                  -> state summary
     ls new | ls write n | ls read k | ls done     writer/reader record counters -> w=.. / r=..
   An event trace recorded from the real code is a run of the LTS iff no line answers `not-enabled`.
@@ -24,7 +27,8 @@ def rpcName : RPc → String
   | .needBad _ _ => "needBad" | .exited => "exited"
 
 def qpcName : QPc → String
-  | .idle => "idle" | .composing _ _ => "composing" | .sending _ _ _ => "sending" | .stopped => "stopped"
+  | .idle => "idle" | .loaded _ => "loaded" | .composing _ _ _ => "composing" | .sending _ _ _ _ => "sending"
+  | .acking _ => "acking" | .stopped => "stopped"
 
 def b01 (b : Bool) : Nat := if b then 1 else 0
 
@@ -45,6 +49,8 @@ def parseEvent : List String → Option Event
   | ["badRecv"] => some .badRecv
   | ["badMore"] => some .badMore
   | ["badDone"] => some .badDone
+  | ["tickNoBad"] => some .tickNoBad
+  | ["tickAck"] => some .tickAck
   | ["sendOk"] => some .sendOk
   | ["sendFail"] => some .sendFail
   | ["stop"] => some .stop
@@ -64,23 +70,28 @@ def describe (e : Event) (old s : State) : String :=
   | .schedBad => s!"ok q={s.queue.length}"
   | .tick =>
     match s.qpc with
-    | .sending a _ _ => s!"ok send ack={a}"
-    | _ => "ok noop"
+    | .loaded rd => s!"ok load rd={rd}"
+    | _ => "ok"
   | .badRecv | .badMore =>
     match s.qpc with
-    | .composing a rs => s!"ok ack={a} n={rs.length} q={s.queue.length}"
+    | .composing a rs k => s!"ok ack={a} n={rs.length} q={s.queue.length} in={if k.isSome then "tick" else "select"}"
     | _ => "ok"
   | .badDone =>
     match s.qpc with
-    | .sending a rs _ => s!"ok send ack={a} ranges={rangesStr rs}"
+    | .sending a rs _ _ => s!"ok send ack={a} ranges={rangesStr rs}"
     | _ => "ok"
+  | .tickNoBad => "ok acking"
+  | .tickAck =>
+    match s.qpc with
+    | .sending a _ _ _ => s!"ok send ack={a}"
+    | _ => "ok noop"
   | .sendOk =>
     match s.resps with
-    | r :: _ => s!"ok resp={s.resps.length} ack={r.ack} ranges={rangesStr r.ranges} la={s.lastAcked}"
+    | r :: _ => s!"ok resp={s.resps.length} ack={r.ack} ranges={rangesStr r.ranges} la={s.lastAcked} next={qpcName s.qpc}"
     | [] => "ok"
   | .sendFail =>
     match s.resps with
-    | r :: _ => s!"ok failed resp={s.resps.length} ack={r.ack} ranges={rangesStr r.ranges} la={s.lastAcked}"
+    | r :: _ => s!"ok failed resp={s.resps.length} ack={r.ack} ranges={rangesStr r.ranges} la={s.lastAcked} next={qpcName s.qpc}"
     | [] => "ok"
   | .stop => if old.qpc = .idle then "ok stopped" else "ok"
 
